@@ -84,6 +84,11 @@ def decode (mode : Mode) (bytes : List Nat) : Except Exc (List Nat) :=
 def inAlphabet (c : Nat) : Bool :=
   (alookup basicEncode c).isSome || (alookup extEncode c).isSome
 
+/-- number of septets a text over the alphabet occupies (1 per basic, 2 per extension char) -/
+def septetLength (text : List Nat) : Nat :=
+  (text.filter fun c => (alookup basicEncode c).isSome).length
+    + 2 * (text.filter fun c => !(alookup basicEncode c).isSome).length
+
 /-- `GSM7BitCodec.is_gsm_text`. -/
 def isGsmText (text : List Nat) : Bool := text.all inAlphabet
 
